@@ -141,10 +141,8 @@ theorem C18_model_meets_spec (i : Input) (h : WF i = true) : specOK (run i) = tr
 
 /-- every damage class shoot diagnoses itself is handled cleanly,
     for every sub-command and whatever the command line would have written -/
-theorem C18_diagnosed_classes_clean (cmd : Cmd) (d : Damage) (outs stale : List String) (hreg : region d = .WF) :
+theorem C18_diagnosed_classes_clean (cmd : Cmd) (d : Damage) (outs stale : List String) :
     specOK (run (classify cmd d outs stale)) = true := by
-  have hng : d ≠ .cleanGlobBad := by
-    intro h; subst h; simp [region] at hreg
   by_cases hd : d = .outputBlocked
   · -- the first output cannot be put in place: an I/O error in the first notedownSrc, nothing has been written yet
     subst hd
@@ -152,7 +150,7 @@ theorem C18_diagnosed_classes_clean (cmd : Cmd) (d : Damage) (outs stale : List 
     | nil => rfl
     | cons f r => simp [classify, run, preExit, writeAll, specOK, Exit.code]
   · apply C18_model_meets_spec
-    cases d <;> cases cmd <;> first | rfl | exact absurd rfl hd | exact absurd rfl hng
+    cases d <;> cases cmd <;> first | rfl | exact absurd rfl hd
 
 /-! ### second tie: the regenerated tables -/
 
@@ -191,21 +189,19 @@ theorem C18_phase_order :
       * `printDeclWithOwnComments`: `"(?m)^package " + pkgName + "$"` - pkgName is the name in the package clause of a parsed file,
         a Go identifier (letters, digits, `_`): no metacharacter possible;
       * `tmpl`: the template text is one of the four embedded `.tmpl` files, fixed at build time;
-      * `Clean`: `filepath.Glob(filepath.Join(Dir, "*.shoot<cmd>*.go"))` - Dir IS user-controlled (the `[dir]` argument) and is not
-        escaped: finding F_glob_dir (`C18_F_glob_dir_witness`, C17's `C17_F_glob_dir_witness`).
-    A new site that interpolates anything else - a flag value such as `-alias`, a type name - breaks this theorem -/
+      * `Clean`: `filepath.Match("*.shoot" + subCmd + "*.go", <base name>)` - subCmd is the sub-command's own name, one of the four
+        `SubCmd` constants handed to NewGeneratorBase. (Until /repo a3d970c this site was `filepath.Glob(filepath.Join(Dir, ...))` with
+        the user's `[dir]` argument inside the pattern: former finding F_glob_dir.)
+    A new site that interpolates anything else - a flag value such as `-alias`, a directory, a type name - breaks this theorem -/
 theorem C18_pattern_sites_classified :
     Facts.patternSites.filter (fun s => s.2.2.2.1 != "literal" && s.2.2.2.1 != "quoted") =
-      [ ("shoot", "Clean", "filepath.Glob", "dynamic", ["g.commonFlags.Dir", "g.subCmd"]),
+      [ ("shoot", "Clean", "filepath.Match", "dynamic", ["g.subCmd"]),
         ("shoot", "printDeclWithOwnComments", "regexp.MustCompile", "dynamic", ["pkgName"]),
         ("shoot", "tmpl", "template.Parse", "dynamic", ["g.tmplTxt"]) ] := by decide
 
-/-- finding F_glob_dir: with an unclosed `[` in the `[dir]` argument Clean's pattern is malformed, Clean returns the error and main
-    exits 1 AFTER the all-in-one file has been written -/
-theorem C18_F_glob_dir_witness :
-    region .cleanGlobBad = .F_glob_dir ∧
-    run (classify .new .cleanGlobBad ["a.shootnew.go"] ["a.shootnew.user.go"]) = (.fatal, [.write "a.shootnew.go"]) ∧
-    specOK (run (classify .new .cleanGlobBad ["a.shootnew.go"] ["a.shootnew.user.go"])) = false := by decide
+/-- formerly finding F_glob_dir (repaired in /repo a3d970c): a `[dir]` path with an unclosed `[` is an ordinary successful run -/
+example : run (classify .new .cleanGlobBad ["a.shootnew.go"] ["a.shootnew.user.go"])
+    = (.ok, [.write "a.shootnew.go", .remove "a.shootnew.user.go"]) := by decide
 
 /-- every literal index into a slice-valued field (`.Names[0]`, `.List[0]`, `.GoFiles[0]`, ... ; regenerated on every run) stands in a
     function that tests `len()` of a slice of that field - the last column lists those tests (`g.pkg.GoFiles[0]` in Generate: a package
